@@ -197,6 +197,20 @@ func exprString(e ast.Expr) string {
 		return exprString(x.X) + "[" + exprString(x.Index) + "]"
 	case *ast.BasicLit:
 		return x.Value
+	case *ast.CallExpr:
+		var a []string
+		for _, arg := range x.Args {
+			a = append(a, exprString(arg))
+		}
+		return exprString(x.Fun) + "(" + strings.Join(a, ",") + ")"
+	case *ast.ParenExpr:
+		return "(" + exprString(x.X) + ")"
+	case *ast.StarExpr:
+		return "*" + exprString(x.X)
+	case *ast.UnaryExpr:
+		return x.Op.String() + exprString(x.X)
+	case *ast.BinaryExpr:
+		return exprString(x.X) + x.Op.String() + exprString(x.Y)
 	}
 	return fmt.Sprintf("%T", e)
 }
